@@ -330,7 +330,61 @@ def suite_sizes(tier, seed):
     return drivers
 
 
+def suite_reopen(tier, seed):
+    """C05 / C09: file-backed arenas closed and reopened (map_mut, map_copy, map, map_copy_read_only) between histories."""
+    rng = random.Random(seed + 21)
+    drivers = []
+    n = 160 if tier == "quick" else 1500
+    for i in range(n):
+        flavors = [["sync", "file"], ["unsync", "file"]]
+        pre = gen_seq.random_driver(rng, "x", flavors, length=rng.randint(4, 30))
+        cfg = pre["cfg"]
+        cfg["compare"] = [[1, 2, "C11", False]]
+        cap = cfg["cap"]
+        ops = [o for o in pre["ops"]]
+        cycles = rng.randint(1, 3)
+        for c in range(cycles):
+            if rng.random() < 0.3:
+                ops.append({"k": "flush"})
+            variant = rng.choice(["map_mut", "map_mut", "map_copy", "map", "map_copy_ro"])
+            capv = rng.choice([0, cap, cap, cap + rng.choice([1, 8, 100])])
+            if capv > cap and variant in ("map_mut", "map_copy"):
+                cap = capv  # both writable variants grow the file to the requested capacity
+            ops.append({"k": "reopen", "variant": variant, "cap": capv, "flush": rng.random() < 0.5,
+                        "create": variant == "map_mut" and rng.random() < 0.3})
+            if variant in ("map", "map_copy_ro"):
+                # mutators of the safe API on a read-only arena (expected: ReadOnly error / documented panic)
+                for _ in range(rng.randint(1, 4)):
+                    ops.append(rng.choice([gen_seq.rand_alloc(rng, cap), {"k": "discard"},
+                                           {"k": "ab", "n": 0, "o": False}]))
+                ops.append({"k": "reopen", "variant": "map_mut", "cap": 0, "flush": False, "create": False})
+            post = gen_seq.churn_driver(rng, "y", [], rounds=rng.randint(1, 3))["ops"]
+            ops += post
+        drivers.append({"id": "reopen:%d" % i, "cfg": cfg, "ops": ops})
+    return drivers
+
+
+def suite_ro_mutators(tier, seed):
+    """C09: the header-writing mutators of the safe API on read-only mappings (each in its own driver: may crash)."""
+    rng = random.Random(seed + 23)
+    drivers = []
+    for flavor in ["sync", "unsync"]:
+        for variant in ["map", "map_copy_ro"]:
+            for mut in [{"k": "setmin", "v": 16}, {"k": "incdisc", "v": 3}, {"k": "clear"}, {"k": "truncate", "v": 300},
+                        {"k": "ab", "n": 8, "o": False}, {"k": "at", "s": 8, "a": 8, "o": False},
+                        {"k": "aa", "s": 8, "a": 8, "n": 4, "o": False}, {"k": "discard"}, {"k": "ab", "n": 8, "o": True}]:
+                for shape in [[AB(16)], [AB(40), AB(24), {"k": "drop", "h": 1}]]:
+                    cfg = {"arenas": [[flavor, "file"]], "cap": 200, "reserved": rng.choice([0, 5]), "kind": rng.choice(["opt", "pes"]),
+                           "minseg": 8, "unify": True, "maxalign": 8, "magic": 3}
+                    ops = list(shape) + [{"k": "reopen", "variant": variant, "cap": 0, "flush": False, "create": False}, mut,
+                                         {"k": "reopen", "variant": "map_mut", "cap": 0, "flush": False, "create": False}, AB(8)]
+                    drivers.append({"id": "ro:%s:%s:%s:%d" % (flavor, variant, mut["k"], len(shape)), "cfg": cfg, "ops": ops})
+    return drivers
+
+
 SUITES = {
+    "reopen": lambda mc, tier, seed: suite_reopen(tier, seed),
+    "ro": lambda mc, tier, seed: suite_ro_mutators(tier, seed),
     "core": lambda mc, tier, seed: suite_core(mc, tier, seed),
     "ctl": lambda mc, tier, seed: suite_ctl(mc, tier, seed),
     "layout": lambda mc, tier, seed: suite_layout(tier, seed),
@@ -406,7 +460,7 @@ def run_suite(name, tier, seed, mc_results, profile="dev"):
                      "op": ev.get("op"), "pre_alloc": pre_alloc(gline, arena) if ev.get("ev") == "op" else None,
                      "res": (ev.get("arenas") or [{}] * arena)[arena - 1].get("res") if ev.get("ev") == "op" else None})
     for c in crashes:
-        viol.append({"prop": "C04", "pred": "ProcessDied", "driver": c["id"], "i": c["i"], "arena": 0, "op": c["op"],
+        viol.append({"prop": "C09" if str(c["id"]).startswith(("ro:", "reopen:", "open:")) else "C04", "pred": "ProcessDied", "driver": c["id"], "i": c["i"], "arena": 0, "op": c["op"],
                      "profile": profile, "pre_alloc": None, "res": {"k": "signal", "sig": c["sig"]}})
     drift = []
     for (gline, arena, what) in impl["drift"]:
@@ -530,6 +584,8 @@ def trace_stats(lines):
                 st["too_small"] += 1
         elif k in ("rewind", "clear", "truncate"):
             st[k] += 1
+        elif k == "reopen":
+            st["reopen"] = st.get("reopen", 0) + 1
         prev = a["obs"]
     st["drivers_with_reuse"] += reuse
     st["drivers_with_error"] += err
